@@ -232,6 +232,7 @@ def run(ctx, rep):
     from . import c01 as _c01
 
     _c01.rule_destroy(ctx, rep)
+    balance.rule_unique_view(ctx, rep)  # nothing lends out the shared handle inside a UniqueArc: "sole owner by type" stays true
     # header written before the handle exists
     c06.rule_init(ctx, rep, only=("from_header_and_uninit_slice",))
     # deprecated writers panic instead of mutating a shared value
